@@ -22,7 +22,7 @@ PROP = {
 
 
 MANIFEST = {
-    "text": "Coq theorems over ALL runs of the send-core LTS (gate reads, register, write lock, write, timer, completion by registry channel / T3 / generation cancel / caller ctx, deregister; peer frames; the dispatcher's secondary/primary discrimination, reject routing and handler fan-out): every reply-expected send returns exactly one of its own secondary reply (same system bytes, sent by the peer, returned to no other call), a reject reason, T3 (enabled no earlier than T3 after the write), conn-closed, ctx error — never (nil, nil); each inbound data frame reaches exactly one waiter or every handler once in arrival order (a late duplicate may be absorbed); library-generated system bytes are pairwise distinct within any window of 2^32-1 draws; every exit path deregisters. The (nil, nil) defect was proved as a witness on the then-current step function and repaired in the code (fix af6ced9); the model keeps both step functions and the driver accepts a log iff one of them explains it. The SAME extracted monitor ok_C06 judges logs recorded from real connections against an adversarial single-goroutine peer (N in {1,2,8,64} senders); deterministic scenarios are compared for equality with the model.",
+    "text": "Coq theorems over ALL runs of the send-core LTS (gate reads, register, write lock, write, timer, completion by registry channel / T3 / generation cancel / caller ctx, deregister; peer frames; the dispatcher's secondary/primary discrimination, reject routing and handler fan-out): every reply-expected send returns exactly one of its own secondary reply (same system bytes, sent by the peer, returned to no other call), a reject reason, T3 (enabled no earlier than T3 after the write), conn-closed, ctx error — never (nil, nil); each inbound data frame reaches exactly one waiter or every handler once in arrival order (a late duplicate may be absorbed); library-generated system bytes are pairwise distinct within any window of 2^32-1 draws; every exit path deregisters. Two defects were proved as witnesses on the then-current step functions and repaired in the code: (nil, nil) after a colliding control response (fix af6ced9) and the genuine reply discarded behind a colliding control response (fix b22156a: data transactions are registered data-only, the stray response is a registry miss answered Reject(3)); the current step function carries both repairs, the older ones are kept as refuted witnesses, and C06_discard_only_duplicates holds without a no-collision hypothesis. The SAME extracted monitor ok_C06 judges logs recorded from real connections against an adversarial single-goroutine peer (N in {1,2,8,64} senders); deterministic scenarios are compared for equality with the model.",
     "note": 'T3 is an enabledness lower bound (timer precision is runtime). Atomicity granularity as in DESIGN Appendix A.2; session-id validation, decode-error handlers and autoS9F9 are off in the model.',
     "technique": 'Rocq/Coq proof (inductive invariant over an executable LTS) + extracted monitor over e2e logs + deterministic scenario equality + hook differential',
 }
